@@ -117,7 +117,7 @@ pub fn check(ctx: &Ctx) -> i32 {
     ev.rule = "accept side: every generated program (well-typed by construction: all constructs, polymorphic declarations instantiated at several types, shadowing, covariable parameters, required type arguments) must be accepted by parse_module + Program::check. reject side: for each accepted program every applicable single edit of 16 certainly-ill-typed classes (dropped/extra argument, integer <-> constructor argument, unbound variable/covariable, unknown definition/constructor/destructor/type, missing/extra/duplicated clause, wrong number of binders or type arguments, variable for covariable and vice versa, duplicate declaration/parameter, wrong annotated type) is emitted as text, must still parse and must be rejected with an error (not accepted, no panic). Non-trivial: accept: polymorphic declaration or >= 2 definitions; reject: >= 3 rejected mutants of the program; distinct by source hash.".into();
     ev.assumptions = vec!["each mutation class is ill-typed under any reading of the language (DESIGN.md C15)".into()];
     let mut report = Report { violations: vec![], infra_errors: vec![] };
-    let n = ctx.tier.pick(3000, 60000);
+    let n = ctx.tier.pick(3000, 300000);
     let run = |b: &[u8]| {
         let c = decode(ctx, b);
         run_accept(ctx, &c.prog, &c.tuples)
@@ -130,7 +130,7 @@ pub fn check(ctx: &Ctx) -> i32 {
         eprintln!("{}", f.summary);
         report.violations.push(write_replay_with(ctx, "accept", &bytes, &f, fun_case_json(&c)));
     } else {
-        let n2 = ctx.tier.pick(800, 8000);
+        let n2 = ctx.tier.pick(800, 40000);
         let run2 = |b: &[u8]| {
             let c = decode(ctx, b);
             run_reject(ctx, &c.prog, &c.tuples)
